@@ -125,12 +125,21 @@ func errBranchOK(info *types.Info, body []ast.Stmt, errObj types.Object) (bool, 
 		if !ok || len(as.Lhs) != 1 || len(as.Rhs) != 1 {
 			return false, "error branch does more than return the error"
 		}
-		lid, lok := as.Lhs[0].(*ast.Ident)
-		if !lok || !hands(as.Rhs[0]) {
+		if !hands(as.Rhs[0]) {
 			return false, "error branch does more than return the error"
 		}
-		if v, ok := info.Uses[lid].(*types.Var); ok && types.Identical(v.Type(), types.Universe.Lookup("error").Type()) {
-			passed = true
+		// recorded in an error variable of the enclosing function or in an error field of the
+		// callback's state (visitor struct)
+		if lid, lok := as.Lhs[0].(*ast.Ident); lok {
+			if v, ok := info.Uses[lid].(*types.Var); ok && types.Identical(v.Type(), types.Universe.Lookup("error").Type()) {
+				passed = true
+			}
+		} else if se, sok := as.Lhs[0].(*ast.SelectorExpr); sok {
+			if v, ok := info.Uses[se.Sel].(*types.Var); ok && v.IsField() && types.Identical(v.Type(), types.Universe.Lookup("error").Type()) {
+				passed = true
+			}
+		} else {
+			return false, "error branch does more than return the error"
 		}
 	}
 	if !passed {
